@@ -182,7 +182,7 @@ def shards(tier: str):
     B = 150 if quick else 1200
     # ---- obligation 1: differential vs. reference ------------------------------------
     if quick:
-        plan = [("raw", 1, (4, 5)), ("raw", 2, (5, 6)), ("line", 1, (4,)), ("line", 2, (4, 5))]
+        plan = [("raw", 1, (4, 5)), ("raw", 2, (5, 6)), ("raw", 3, (5, 6)), ("line", 1, (4,)), ("line", 2, (4, 5))]
     else:
         plan = [("raw", 1, (4, 5, 6, 7)), ("raw", 2, (5, 6, 7, 8)), ("raw", 3, (6, 7, 8)), ("line", 1, (4, 5, 6)), ("line", 2, (4, 5, 6, 7))]
     for kind, seplen, sizes in plan:
